@@ -1,180 +1,36 @@
-// renamer is a development aid (DESIGN §6): it writes a copy of the repository in which every
-// local variable, parameter, receiver and named result of pkg/... is renamed (suffix "_r"),
-// a behaviour-preserving edit the checks must stay silent on.
-// usage: renamer <repo> <copy-dir>   (copy-dir must already hold a copy of the repo)
+// renamer is a development aid (DESIGN §6): it writes the behaviour-preserving transformations of
+// internal/sweep/benign.go into a copy of the repository (used by tools/benign_check.sh).
+// usage: renamer <repo> <copy-dir> [log|logall]   (copy-dir must already hold a copy of the repo)
 package main
 
 import (
 	"fmt"
-	"go/ast"
-	"go/token"
-	"go/types"
 	"os"
 	"path/filepath"
-	"sort"
-	"strings"
 
-	"golang.org/x/tools/go/packages"
+	"hapverif/internal/sweep"
 )
 
 func main() {
 	repo, dst := os.Args[1], os.Args[2]
+	var ov map[string][]byte
+	var n int
+	var err error
+	what := "renamed identifier occurrences"
 	if len(os.Args) > 3 && (os.Args[3] == "log" || os.Args[3] == "logall") {
-		everyBlock = os.Args[3] == "logall"
-		insertLogs(repo, dst)
-		return
+		ov, n, err = sweep.LogOverlay(repo, os.Args[3] == "logall")
+		what = "inserted calls"
+	} else {
+		ov, n, err = sweep.RenameOverlay(repo)
 	}
-	fset := token.NewFileSet()
-	cfg := &packages.Config{Mode: packages.NeedName | packages.NeedFiles | packages.NeedSyntax | packages.NeedTypes | packages.NeedTypesInfo | packages.NeedImports, Dir: repo, Fset: fset,
-		Env: append(os.Environ(), "GOFLAGS=-mod=mod", "GOPROXY=off", "GOSUMDB=off", "GOTOOLCHAIN=local", "GOWORK=off")}
-	pkgs, err := packages.Load(cfg, "./pkg/...")
 	if err != nil {
 		panic(err)
 	}
-	type edit struct {
-		off int
-		old string
-	}
-	edits := map[string][]edit{}
-	n := 0
-	for _, p := range pkgs {
-		isLocal := func(o types.Object) bool {
-			v, ok := o.(*types.Var)
-			if !ok || v.IsField() || o.Name() == "_" || o.Pkg() == nil {
-				return false
-			}
-			// package-level vars have the package scope as parent
-			return o.Parent() != nil && o.Parent() != o.Pkg().Scope() && o.Parent() != types.Universe
-		}
-		add := func(id *ast.Ident, o types.Object) {
-			if o == nil || !isLocal(o) {
-				return
-			}
-			pos := fset.Position(id.Pos())
-			if strings.HasSuffix(pos.Filename, "_test.go") {
-				return
-			}
-			edits[pos.Filename] = append(edits[pos.Filename], edit{pos.Offset, id.Name})
-			n++
-		}
-		for id, o := range p.TypesInfo.Defs {
-			add(id, o)
-		}
-		for id, o := range p.TypesInfo.Uses {
-			add(id, o)
-		}
-		// `switch x := y.(type)`: the symbol has no object of its own (one implicit object per clause)
-		for _, f := range p.Syntax {
-			ast.Inspect(f, func(nd ast.Node) bool {
-				ts, ok := nd.(*ast.TypeSwitchStmt)
-				if !ok {
-					return true
-				}
-				if as, ok := ts.Assign.(*ast.AssignStmt); ok && len(as.Lhs) == 1 {
-					if id, ok := as.Lhs[0].(*ast.Ident); ok && id.Name != "_" {
-						pos := fset.Position(id.Pos())
-						if !strings.HasSuffix(pos.Filename, "_test.go") {
-							edits[pos.Filename] = append(edits[pos.Filename], edit{pos.Offset, id.Name})
-						}
-					}
-				}
-				return true
-			})
-		}
-	}
-	for file, es := range edits {
+	for file, src := range ov {
 		rel, _ := filepath.Rel(repo, file)
-		src, err := os.ReadFile(file)
-		if err != nil {
-			panic(err)
-		}
-		sort.Slice(es, func(i, j int) bool { return es[i].off > es[j].off })
-		last := -1
-		for _, e := range es {
-			if e.off == last {
-				continue
-			}
-			last = e.off
-			if string(src[e.off:e.off+len(e.old)]) != e.old {
-				continue
-			}
-			src = append(src[:e.off+len(e.old)], append([]byte("_r"), src[e.off+len(e.old):]...)...)
-		}
 		if err := os.WriteFile(filepath.Join(dst, rel), src, 0o644); err != nil {
 			panic(err)
 		}
 	}
-	fmt.Println("renamed", n, "identifier occurrences in", len(edits), "files")
-}
-
-var everyBlock bool
-
-// insertLogs writes a copy in which every function body of pkg/... starts with a
-// call that has no effect on the model (`println()`), the shape of an added log line.
-func insertLogs(repo, dst string) {
-	fset := token.NewFileSet()
-	cfg := &packages.Config{Mode: packages.NeedName | packages.NeedFiles | packages.NeedSyntax, Dir: repo, Fset: fset,
-		Env: append(os.Environ(), "GOFLAGS=-mod=mod", "GOPROXY=off", "GOSUMDB=off", "GOTOOLCHAIN=local", "GOWORK=off")}
-	pkgs, err := packages.Load(cfg, "./pkg/...")
-	if err != nil {
-		panic(err)
-	}
-	n := 0
-	for _, p := range pkgs {
-		for _, f := range p.Syntax {
-			name := fset.Position(f.Pos()).Filename
-			if strings.HasSuffix(name, "_test.go") {
-				continue
-			}
-			var offs []int
-			skip := map[*ast.BlockStmt]bool{}
-			ast.Inspect(f, func(nd ast.Node) bool {
-				switch x := nd.(type) {
-				case *ast.SwitchStmt:
-					skip[x.Body] = true
-				case *ast.TypeSwitchStmt:
-					skip[x.Body] = true
-				case *ast.SelectStmt:
-					skip[x.Body] = true
-				}
-				return true
-			})
-			ast.Inspect(f, func(nd ast.Node) bool {
-				switch x := nd.(type) {
-				case *ast.FuncDecl:
-					if x.Body != nil {
-						offs = append(offs, fset.Position(x.Body.Lbrace).Offset+1)
-					}
-				case *ast.FuncLit:
-					offs = append(offs, fset.Position(x.Body.Lbrace).Offset+1)
-				case *ast.BlockStmt:
-					if everyBlock && !skip[x] {
-						offs = append(offs, fset.Position(x.Lbrace).Offset+1)
-					}
-				case *ast.CaseClause:
-					if everyBlock {
-						offs = append(offs, fset.Position(x.Colon).Offset+1)
-					}
-				}
-				return true
-			})
-			if len(offs) == 0 {
-				continue
-			}
-			src, _ := os.ReadFile(name)
-			sort.Sort(sort.Reverse(sort.IntSlice(offs)))
-			last := -1
-			for _, o := range offs {
-				if o == last {
-					continue
-				}
-				last = o
-				src = append(src[:o], append([]byte(" println(); "), src[o:]...)...)
-				n++
-			}
-			rel, _ := filepath.Rel(repo, name)
-			os.WriteFile(filepath.Join(dst, rel), src, 0o644)
-		}
-	}
-	fmt.Println("inserted", n, "calls")
+	fmt.Println(n, what, "in", len(ov), "files")
 }
